@@ -504,6 +504,15 @@ func (c *bufioConn) UnderlyingConn() net.Conn {
 	return c.Conn
 }
 
+// CloseWrite passes the relay's write-shutdown through to the wrapped connection
+// (embedding the net.Conn interface does not promote CloseWrite).
+func (c *bufioConn) CloseWrite() error {
+	if wc, ok := c.Conn.(WriteCloser); ok {
+		return wc.CloseWrite()
+	}
+	return nil
+}
+
 func (c *bufioConn) TakeRelaySegments() [][]byte {
 	prefix := c.TakeRelayPrefix()
 	if len(prefix) == 0 {
